@@ -183,7 +183,7 @@ static inline XzResult xz_decode(const uint8_t *in, size_t n, const XzOpts &o = 
 			}
 			if (fst != RS_OK) { return fail(fst, "reference lacks this filter", pos); }
 			if (b.has_comp && b.comp_field != b.data_size) { R.out.insert(R.out.end(), data.begin(), data.end()); return fail(RS_DATA_ERROR, "compressed size field mismatch", pos + b.data_size); }
-			if (b.has_unc && b.unc_field != b.unc_size) { return fail(RS_DATA_ERROR, "uncompressed size field mismatch", pos + b.data_size); }
+			if (b.has_unc && b.unc_field != b.unc_size) { R.out.insert(R.out.end(), data.begin(), data.end()); return fail(RS_DATA_ERROR, "uncompressed size field mismatch", pos + b.data_size); }
 			R.out.insert(R.out.end(), data.begin(), data.end());
 			pos += b.data_size;
 			// Block Padding
